@@ -55,6 +55,18 @@ def run_check(prop: str, tier: str, repo: Repo = None, write: bool = True, quiet
             ck.counts["sweep_flagged"] = r["killed"] + r["analysis_error"]
         except Exception as e:  # exploration only: never decides the check
             ck.sweep = {"error": f"{type(e).__name__}: {e}"}
+        try:
+            from . import benign
+
+            b = benign.sweep(prop, ANCHORS.get(prop, []), root=repo.root)
+            ck.benign = b
+            ck.evaluations += b["edits"]
+            ck.counts["benign_edits"] = b["edits"]
+            ck.counts["benign_alarms"] = b["alarms"]
+            for a in b["alarm_list"][:5]:
+                ck.note(f"benign edit raised an alarm (checker brittleness, not a finding): {a}")
+        except Exception as e:
+            ck.benign = {"error": f"{type(e).__name__}: {e}"}
     ck.finish(write=write)
     return ck
 
